@@ -424,6 +424,12 @@ def run_lab(ctx, u, cases, plan_meta, opts_list, tag):
             what, detail = "extra-handler-invocation", {"handlers": [[h["ds"], h["m"]] for h in hs]}
         if not x.get("bytes_ok", False) and not what:
             what, detail = "bytes", {"notes": x.get("notes")}
+        # a reply / exception message "arrives" only if the processor flushes its output protocol after writing it: on a
+        # transport that buffers until Flush an unflushed message stays in the server
+        unfl = [n for n, e in enumerate(events) if e["e"] == "sw" and e.get("flushed") is False]
+        if unfl and not what:
+            what, detail = "reply-not-flushed", {"event_index": unfl[0], "call": max(1, min(len(shape), sum(
+                1 for e in events[:unfl[0]] if e["e"] == "sr")))}
         if i in rej and not what:
             at = reach.get(i)
             tr = rows[i]["ev"]
